@@ -120,6 +120,9 @@ def snap_entity(entity, with_type=True) -> dict:
         }
     if hasattr(entity, "children"):
         kids = [c for c in entity.children if hasattr(c, "entity_type")]
+        if "pgs" in node:
+            # property groups sit in the child list too: it must name exactly the groups `property_groups` gives
+            node["pg_children"] = sorted(str(c.uid) for c in entity.children if not hasattr(c, "entity_type"))
         node["children"] = sorted(str(c.uid) for c in kids)
         node["n_child_entries"] = len(kids)
     return node
@@ -166,8 +169,8 @@ def diff_nodes(a: dict, b: dict, ignore=()) -> list:
             continue
         na, nb = a[uid], b[uid]
         for field in sorted(set(na) | set(nb)):
-            if field in ignore:
-                continue
+            if field in ignore or (field == "pg_children" and (field not in na or field not in nb)):
+                continue  # (a reference model has no child list of its own)
             if na.get(field) != nb.get(field):
                 out.append((uid, field, na.get(field), nb.get(field)))
     return out
